@@ -373,6 +373,12 @@ func genTLS(r *rand.Rand, id string) *Case {
 		tin = append(tin, be32(uint32(r.Intn(4000000)))...) // process id
 		tin = append(tin, randBytes(r, 4, false)...)        // secret key
 		tin = append(tin, randBytes(r, r.Intn(6), false)...)
+	case k < 13 && c.L > 0 && !c.Auth && c.MW == "": // the configured limit applies inside TLS exactly as outside (C10)
+		tin = startup(196608, [][2]string{{"user", user}}, true)
+		tin = append(tin, msgQuery(probeQuery("FITS", c.L))...)
+		tin = append(tin, msgQuery(probeQuery("BIG", c.L+1))...)
+		tin = append(tin, msgQuery(probeQuery("AFTER", 0))...)
+		c.Extra["xp"] = strings.Join([]string{xpC("FITS"), "Z", "E54000:ERROR", "Z", xpC("AFTER"), "Z"}, ",")
 	case k < 13: // a second SSLRequest inside TLS
 		tin = append(append([]byte(nil), sslRequestPacket...), tin...)
 	case k < 14: // the SSLRequest arrives byte by byte
